@@ -233,7 +233,11 @@ func (g *aspGen) cmp(op string, l, r ex) ex {
 func (g *aspGen) neg(e ex) ex {
 	g.op(pUnary)
 	g.meta.NegOp = true
-	return ex{s: "-" + par(e, pAtom), p: pUnary, post: 2, ln: -1, fresh: true}
+	sp := ""
+	if strings.HasPrefix(e.s, "0o") { // asp's lexer reads "-0" as a signed literal and then chokes on "o17"
+		sp = " "
+	}
+	return ex{s: "-" + sp + par(e, pAtom), p: pUnary, post: 2, ln: -1, fresh: true}
 }
 
 func (g *aspGen) not(e ex) ex {
